@@ -34,6 +34,19 @@ struct Task {
 
 const SIZES: [usize; 12] = [0, 1, 2, 100, 4095, 4096, 4097, 8192, 65535, 65536, 65537, 200_000];
 
+fn storm_tasks(t: &mut Tape, logdir: &str) -> Vec<Task> {
+    let n = 40 + t.below(40);
+    let exe = self_exe();
+    let q = |s: &str| format!("'{}'", s.replace('\'', "'\\''"));
+    (0..n)
+        .map(|id| {
+            let out = format!("s{}", id);
+            let cmd = format!("{} agent {} {} '1:10' 0 {} -", q(&exe), q(logdir), id, q(&out));
+            Task { id, plan: "1:10".into(), code: 0, signal: None, out, rsp: None, cmd, stdout_hidden: false, status_masked: false, ins: vec![], pool: None, out_removed: false, hide_success: false }
+        })
+        .collect()
+}
+
 fn gen_tasks(t: &mut Tape, logdir: &str, big: bool) -> Vec<Task> {
     let n = 1 + t.below(12);
     let exe = self_exe();
@@ -203,8 +216,11 @@ impl C16 {
         std::fs::create_dir_all(&drydir).unwrap();
         let mut t = Tape::new(&case.main);
         let big = t.chance(60);
-        let tasks = gen_tasks(&mut t, &logdir.to_string_lossy(), big);
-        let j = [1, 2, 4, 8, 16][t.below(5)];
+        // now and then a storm of many trivial commands that all become ready at once: spawning is concurrent, and
+        // whatever one thread has open while another one forks must not reach the other's command
+        let storm = t.chance(12);
+        let tasks = if storm { storm_tasks(&mut t, &logdir.to_string_lossy()) } else { gen_tasks(&mut t, &logdir.to_string_lossy(), big) };
+        let j = if storm { 64 } else { [1, 2, 4, 8, 16][t.below(5)] };
         std::fs::write("in1", "1").unwrap();
         std::fs::write("in 2", "2").unwrap();
         let manifest = render(&tasks);
